@@ -526,9 +526,10 @@ func (b *broker) syncUnsubscribe(subscriber *wamp.Session, msg *wamp.Unsubscribe
 	delete(sub.subscribers, subscriber)
 
 	// If no more subscribers on this subscription, delete subscription and
-	// send on_delete meta event.
+	// send on_delete meta event. A subscription that keeps an event history
+	// exists independently of its subscribers.
 	var delLastSub bool
-	if len(sub.subscribers) == 0 {
+	if _, hasHistory := b.eventHistoryStore[sub]; len(sub.subscribers) == 0 && !hasHistory {
 		b.syncDelSubscription(sub)
 		delLastSub = true
 	}
@@ -580,8 +581,9 @@ func (b *broker) syncRemoveSession(subscriber *wamp.Session) {
 		// Remove subscribed session from subscription.
 		delete(sub.subscribers, subscriber)
 
-		// If no more subscribers on this subscription.
-		if len(sub.subscribers) == 0 {
+		// If no more subscribers on this subscription, and it does not keep an
+		// event history.
+		if _, hasHistory := b.eventHistoryStore[sub]; len(sub.subscribers) == 0 && !hasHistory {
 			b.syncDelSubscription(sub)
 			// Fired when a subscription is deleted after the last session
 			// attached to it has been removed.
